@@ -12,6 +12,7 @@ package main
 // Everything else of main() is the code of the working tree.
 
 import (
+	"bytes"
 	"context"
 	"flag"
 	"fmt"
@@ -79,7 +80,19 @@ func verifWrap_RunZMQ(orig func(context.Context), zi *cj.ZMQIngester) func(conte
 		w.mnRegChan = cj.VerifZMQRegChan(zi)
 		w.mu.Unlock()
 		w.r.Logf("main: RunZMQ (stand-in: the world publishes into main's channel)")
+		// The stand-in keeps the one property of the pinned RunZMQ that main()'s shutdown can depend on:
+		// its receive loop blocks in the socket and looks at the context only after a message has
+		// arrived. After cancellation it therefore returns with the next message that arrives, and not
+		// at all on a quiet feed (until the world is torn down).
 		<-ctx.Done()
+		select {
+		case <-w.mnZMQMsg:
+		default:
+		}
+		select {
+		case <-w.mnZMQMsg:
+		case <-w.mnZMQStop:
+		}
 	}
 }
 
@@ -150,10 +163,10 @@ func mnTest(t *testing.T, prop string) {
 		Runs:     map[string]int{"quick": 1500, "thorough": 200000},
 		Real: []string{"main() of cmd/application itself, as a task of the simulation: flag and configuration parsing (generated app_config.toml, key files, phantom subnet file), NewRegistrationManager (real liveness tester built from the configuration, empty GeoIP), transport set-up, the 3-minute sweeper goroutine, HandleRegUpdates with its worker pool, the signal loop (SIGHUP: ParseConfig + OnReload; SIGINT / SIGTERM: cancel, wait, deferred Cleanup)",
 			"statistics modules as main() registers them, printed through Stats.PrintStats", "go-redis client the station builds itself"},
-		Stub: []string{"the four calls of main() that need the operating system, replaced through seamgen rule wrap=: dtls.NewTransport (UDP listener + tun device), ZMQIngester.RunZMQ (ZMQ sockets; the world publishes into the channel main() created), connManager.acceptConnections (TCP listener; the world calls handleNewTCPConn), signal.Notify (the world sends the signals)",
+		Stub: []string{"the four calls of main() that need the operating system, replaced through seamgen rule wrap=: dtls.NewTransport (UDP listener + tun device), ZMQIngester.RunZMQ (ZMQ sockets; the world publishes into the channel main() created; the stand-in returns after cancellation only with the next arriving message, as the pinned receive loop does), connManager.acceptConnections (TCP listener; the world calls handleNewTCPConn), signal.Notify (the world sends the signals)",
 			"Redis server (RESP stub) + detector model, covert hosts, phantom hosts (never answer the liveness probe)", "the Stat() tickers (statistics epochs are driven explicitly)"},
 		Rule: "random histories against the running main(): registrations of min / prefix clients, connections with a genuine flight, idle periods of 1 min - 7 h 15 min (the real sweeper goroutine is the only thing that expires registrations), statistics epochs, SIGHUP with a good configuration (another subset of three covert blocklist subnets), with a configuration that does not load (broken TOML, missing file, unparseable list entry, bad domain pattern) and with a good configuration but a broken phantom-subnet file, then SIGINT / SIGTERM, optionally with a registration being probed and further registrations arriving. " +
-			"Oracle, per property. C08: a registration that is 65 min past its lifetime (10 min unused, 6 h used) is no longer returned for its phantom and no longer tracked; one that is younger than its lifetime still is. C09: main() returns within 120 simulated seconds of the stop signal, nothing panics. C10: every published message is accepted by the detector model; when main() has returned the last message is a Clear and the model's table is empty. C19: no panic in any goroutine; after every reload the covert policy in force (judged by admitting probe registrations) is that of the last configuration that loaded, completely; a broken subnet file leaves registrations of the old generation admitted. non-trivial = main() reached its signal loop, at least one registration was admitted and main() returned after the stop signal",
+			"Oracle, per property. C08: a registration that is 65 min past its lifetime (10 min unused, 6 h used) is no longer returned for its phantom and no longer tracked; one that is younger than its lifetime still is. C09: main() returns within 120 simulated seconds of the stop signal, nothing panics. C10: every published message is accepted by the detector model; when main() has returned the last message is a Clear and the model's table is empty. C17: with LOG_CLIENT_IP unset or spelled as a false value, nothing the running station logged from start-up to shutdown contains a client address (connection peers, registrants). C19: no panic in any goroutine; after every reload the covert policy in force (judged by admitting probe registrations) is that of the last configuration that loaded, completely; a broken subnet file leaves registrations of the old generation admitted. non-trivial = main() reached its signal loop, at least one registration was admitted and main() returned after the stop signal",
 		Assume: []string{"log.Fatal paths of main() (unusable start-up configuration) are not generated: they end the process by design", "the sweep interval is not judged exactly: expiry is required 65 simulated minutes after the lifetime ended"},
 	})
 }
@@ -162,6 +175,7 @@ func TestVerifMainC08(t *testing.T) { mnTest(t, "C08") }
 func TestVerifMainC09(t *testing.T) { mnTest(t, "C09") }
 func TestVerifMainC10(t *testing.T) { mnTest(t, "C10") }
 func TestVerifMainC19(t *testing.T) { mnTest(t, "C19") }
+func TestVerifMainC17(t *testing.T) { mnTest(t, "C17") }
 
 func mnScenario(r *sim.Run, prop string) {
 	tp := r.Tape
@@ -208,6 +222,13 @@ func mnScenario(r *sim.Run, prop string) {
 	os.Unsetenv("CJ_PRIVKEY")
 	os.Unsetenv("ZMQ_PRIVKEY")
 	os.Unsetenv("LOG_CLIENT_IP")
+	if prop == "C17" {
+		// client-address logging is off: the variable is unset (main() then logs a parse error and must
+		// fall back to "off") or spelled as a false value, as the shipped sysconfig does
+		if k := tp.Choose("log-client-ip", 4); k > 0 {
+			os.Setenv("LOG_CLIENT_IP", []string{"", "false", "0", "f"}[k])
+		}
+	}
 	flag.CommandLine = flag.NewFlagSet("application", flag.ContinueOnError)
 	os.Args = []string{"application"}
 	cj.VerifResetStatsModules()
@@ -225,9 +246,11 @@ func mnScenario(r *sim.Run, prop string) {
 	w.wg = new(sync.WaitGroup)
 	w.regChan = make(chan interface{}, 4)
 	w.captureOff = stCaptureSize()
+	w.mnZMQMsg, w.mnZMQStop = make(chan struct{}, 1), make(chan struct{})
 	mnActive = w
 	defer func() { mnActive = nil }()
 	defer w.close()
+	defer close(w.mnZMQStop)
 
 	mainReturned := false
 	var mainRetAt time.Duration
@@ -410,7 +433,23 @@ func mnScenario(r *sim.Run, prop string) {
 		}
 		nops := 2 + tp.Choose("nops", 7)
 		for op := 0; op < nops && !r.Failed(); op++ {
-			switch tp.Choose("op", 7) {
+			switch tp.Choose("op", 8) {
+			case 7: // somebody who holds no secret connects to a phantom and stays until the station gives up
+				ph := net.IPv4(192, 0, 2, byte(1+tp.Choose("probe-phantom", 60))).To4()
+				conn := w.open(ph, simnet.TCP("198.51.100.99", 44000+op))
+				stWriteSegments(conn.H, tp.Bytes("probe-junk", 120), []int{40}, nil)
+				w.settle()
+				for k := 0; k < 14 && !conn.returned; k++ {
+					time.Sleep(time.Second)
+					w.settle()
+				}
+				conn.H.Close()
+				for k := 0; k < 20 && !conn.returned; k++ {
+					time.Sleep(time.Second)
+					w.settle()
+				}
+				r.Cover("probe")
+				r.Probe("main_unauthenticated_connection")
 			case 0, 1: // a client registers
 				c := newClient("")
 				if c == nil {
@@ -485,7 +524,7 @@ func mnScenario(r *sim.Run, prop string) {
 				r.Cover("stats", fmt.Sprint(verbose))
 				r.Probe("main_stats_epoch")
 			default: // SIGHUP
-				kind := tp.Choose("reload", 7)
+				kind := tp.Choose("reload", 8)
 				newPolicy := uint(tp.Choose("new-policy", 8))
 				sigKind := "policies-not-replaced"
 				switch kind {
@@ -513,6 +552,11 @@ func mnScenario(r *sim.Run, prop string) {
 					sigKind = "bad-reload-changed-policies"
 					r.Probe("main_reload_empty_file")
 					r.Fault("reload/empty-file")
+				case 7: // the station configuration is untouched; only the phantom subnet file has a new version (a second generation)
+					write("mn_subnets.toml", w.subnetToml()+"  [Networks.2]\n    Generation = 2\n    [[Networks.2.WeightedSubnets]]\n      Weight = 1\n      RandomizeDstPort = true\n      Subnets = [\"192.0.2.64/26\", \"2001:db8:2::/120\"]\n")
+					newPolicy = inForce
+					sigKind = "policies-changed-by-subnet-reload"
+					r.Probe("main_reload_new_subnet_file_only")
 				default: // good configuration, broken phantom subnet file
 					write("mn_config.toml", mnConfigToml(dir, o.workers, newPolicy, ""))
 					write("mn_subnets.toml", "[Networks]\n  [Networks.1\n    Generation = \n")
@@ -531,8 +575,27 @@ func mnScenario(r *sim.Run, prop string) {
 					r.Fail(prop+"/main-left-on-sighup", "main() returned after a SIGHUP")
 					return
 				}
+				if kind == 7 && prop == "C19" {
+					// the new version of the subnet part loaded without error: it is in force
+					old := w.subnets
+					wt, rnd := uint32(1), true
+					w.subnets = &pb.PhantomSubnetsList{WeightedSubnets: []*pb.PhantomSubnets{{Weight: &wt, Subnets: []string{"192.0.2.64/26", "2001:db8:2::/120"}, RandomizeDstPort: &rnd}}}
+					c := newClient("")
+					w.subnets = old
+					if c == nil {
+						return
+					}
+					c.gen, c.v6 = 2, false
+					g := &mnReg{c: c, at: time.Now()}
+					register(c)
+					if !w.mnVisible(g) {
+						r.Fail("C19/reload/main/phantom-subnets-not-replaced", "SIGHUP with an unchanged station configuration and a new, valid phantom subnet file (a second generation): a registration of that generation is not admitted afterwards - the new version of the subnet part is not in force")
+						return
+					}
+					write("mn_subnets.toml", w.subnetToml())
+				}
 				// put loadable files back so that later reloads start from a sane directory
-				if kind >= 2 {
+				if kind >= 2 && kind != 7 {
 					if kind != 6 {
 						write("mn_config.toml", mnConfigToml(dir, o.workers, inForce, ""))
 					}
@@ -587,6 +650,10 @@ func mnScenario(r *sim.Run, prop string) {
 					case w.mnRegChan <- m:
 					default:
 					}
+					select {
+					case w.mnZMQMsg <- struct{}{}: // a message has come through the subscriber's socket
+					default:
+					}
 					time.Sleep(151 * time.Millisecond) // never at one of the director's polling instants
 				}
 			})
@@ -630,6 +697,38 @@ func mnScenario(r *sim.Run, prop string) {
 		if !consume() {
 			return
 		}
+		if prop == "C17" {
+			// everything the running station wrote (start-up, registrations, connections, reloads,
+			// statistics, shutdown): no client address in it
+			out := bytes.ToLower(w.logSince())
+			addrs := []net.IP{net.ParseIP("198.51.100.99")}
+			for id := 0; id < nextID; id++ {
+				addrs = append(addrs, net.IPv4(198, 51, 100, byte(10+id%200)))
+			}
+			for _, ip := range addrs {
+				for _, form := range c17Forms(ip) {
+					for off := 0; ; {
+						i := bytes.Index(out[off:], []byte(form))
+						if i < 0 {
+							break
+						}
+						i += off
+						off = i + len(form)
+						if off < len(out) && out[off] >= '0' && out[off] <= '9' {
+							continue // a longer number: another address
+						}
+						ls := bytes.LastIndexByte(out[:i], '\n') + 1
+						le := bytes.IndexByte(out[i:], '\n')
+						if le < 0 {
+							le = len(out) - i
+						}
+						line := string(out[ls : i+le])
+						r.Fail("C17/leak/"+c17Where(line)+"/main-world", "with client-address logging off (LOG_CLIENT_IP=%q) the running station's log contains the client address %s: %q", os.Getenv("LOG_CLIENT_IP"), form, line)
+						return
+					}
+				}
+			}
+		}
 		if prop == "C10" {
 			if nClear == 0 {
 				r.Fail("C10/clear-not-published/main", "main() returned after %v without a Clear message on the detector channel", sig)
@@ -659,7 +758,7 @@ func mnScenario(r *sim.Run, prop string) {
 // addresses (nothing ever answers there: the probe times out), everything else is a covert host.
 func (w *stWorld) mnDial(network, addr string) (net.Conn, error) {
 	if ap, err := netip.ParseAddrPort(addr); err == nil {
-		for _, g := range w.o.groups {
+		for _, g := range append([]stSubnetGroup{{1, true, []string{"192.0.2.0/24", "2001:db8:1::/48", "2001:db8:2::/48"}}}, w.o.groups...) {
 			for _, sn := range g.subnets {
 				if pfx, err := netip.ParsePrefix(sn); err == nil && pfx.Contains(ap.Addr().Unmap()) {
 					w.r.Logf("liveness probe %s: no answer", addr)
